@@ -127,7 +127,8 @@ def r15b(ctx):
 def r15c(ctx):
     a = an(ctx.F.body(c16.REGC))
     fn = c16.REGC
-    sp = [s for s in a.calls('tokio::task::join_set::JoinSet::spawn') if flow.mentions(a.arg(s, 1), lambda e: e[0] == 'agg' and e[2] == c16.TASK)]
+    xt = c16.xorb_task(ctx)
+    sp = [s for s in a.calls('tokio::task::join_set::JoinSet::spawn') if xt.spawned_in(a, s)]
     if not ctx.check(len(sp) == 1, 'R15c', fn, 'spawn', '-', 'one spawn of the put task'):
         return
     nz = edges_where(a, lambda op, l, r: op == 'Ne' and l[0] == 'call' and sg(l[1]).endswith('RawXorbData::num_bytes') and l[2][0][0] in ('upvar', 'local', 'param') and r == ('const', 0, 'usize'))
